@@ -241,6 +241,19 @@ func mJoinGeneric(ex *Exec, c *callCtx) Value {
 	if sl, ok := c.args[0].(RefV); ok && len(sl.Alts) == 1 {
 		if st, ok := sl.Alts[0].Tgt.(SliceT); ok && st.Len.IsConst() {
 			arr := st.Arr.val.(ArrayV)
+			for i := 0; i < int(st.Len.SVal()); i++ {
+				if _, isB := arr.E[st.Off+i].(BStrV); isB {
+					// byte-mode component: the joined path is only handed to the os.Stat stub
+					v := FreshVar("str:joined", SInt)
+					ex.assume(ILt(IntC(0), v))
+					return StrV{T: v}
+				}
+			}
+		}
+	}
+	if sl, ok := c.args[0].(RefV); ok && len(sl.Alts) == 1 {
+		if st, ok := sl.Alts[0].Tgt.(SliceT); ok && st.Len.IsConst() {
+			arr := st.Arr.val.(ArrayV)
 			var parts []string
 			all := true
 			for i := 0; i < int(st.Len.SVal()); i++ {
